@@ -37,9 +37,19 @@ def main():
         m = re.search(r"/tmp/seed/[A-Za-z0-9_-]+", meta["demo_cmd"])
         orig_root = m.group(0) if m else None
         demo_cmd = meta["demo_cmd"].replace(orig_root, wt) if orig_root else meta["demo_cmd"]
+        # some authors put the application of their patch into the demo command: the tool applies it itself
+        demo_cmd = re.sub(r"git\s+(-C\s+\S+\s+)?apply\s+[^&;|]*(&&|;)", "", demo_cmd)
         so_src = os.path.dirname(sd) if os.path.basename(os.path.dirname(sd)) == "seed_out" else sd
         def with_seed_out(f):
             shutil.copytree(so_src, os.path.join(wt, "seed_out"), dirs_exist_ok=True)
+            # authors who leave the placing of the demo to the reader name its place in meta.demo_location
+            loc = str(meta.get("demo_location", "")).split()
+            if loc and loc[0].endswith("_test.go") and " cp " not in " " + meta["demo_cmd"]:
+                for cand in sorted(os.listdir(sd)):
+                    if cand.endswith("_test.go"):
+                        os.makedirs(os.path.dirname(os.path.join(wt, loc[0])), exist_ok=True)
+                        shutil.copyfile(os.path.join(sd, cand), os.path.join(wt, loc[0]))
+                        break
             try:
                 return f()
             finally:
